@@ -274,7 +274,11 @@ def isolate(ctx, cam, devs, stats):
         jl = pure_junk(cam.junk_lines(sid))
         if not jl:
             continue
-        key = (tuple((f, c, t) for f, _, c, t in jl), fields, tuple(cam.scn[sid][0]["files"]["resolv"]))
+        # numeric classes (ConfigNum.tla) have exactly one text: scenarios that differ only in the context line share
+        # the analysis of their junk
+        ctx_free = all(f == "resolv" and c in B.VARIANTS and len(B.VARIANTS[c]) == 1 and "_num_" in c for f, _, c, _ in jl)
+        key = (tuple((f, c, t) for f, _, c, t in jl), fields,
+               () if ctx_free else tuple(cam.scn[sid][0]["files"]["resolv"]))
         if key in seen:
             seen[key].append(sid)
             continue
@@ -498,7 +502,7 @@ def trace_validation(ctx, cams, stats, private):
     for cam in cams:
         if not private and cam.name.startswith(("nss", "svc")):
             continue
-        evs.extend(trace_events(cam, ctx.seed, per))
+        evs.extend(trace_events(cam, ctx.seed, per // 3 if cam.name.startswith("num") else per))
     if not private:
         for e in evs:
             e["obs"]["lookups"] = "fb" if e["obs"]["lookups"] else e["obs"]["lookups"]
